@@ -118,6 +118,12 @@ func sliceOf(v ssa.Value) map[ssa.Value]bool {
 				}
 			}
 		}
+		// a local allocation depends on everything stored into it (composite literals, spilled locals)
+		if a, ok := v.(*ssa.Alloc); ok {
+			for _, ref := range *a.Referrers() {
+				collectStores(ref, a, visit, map[ssa.Instruction]bool{})
+			}
+		}
 		// loads through local allocs: add stored values
 		if u, ok := v.(*ssa.UnOp); ok && u.Op == token.MUL {
 			if a := rootAlloc(u.X); a != nil {
@@ -643,6 +649,10 @@ func intervalAt(fn *ssa.Function, b *ssa.BasicBlock, isX vpred) (lo, hi int64, h
 			if holds {
 				newLo, newHi = v(k), v(k)
 			}
+		case token.NEQ:
+			if !holds {
+				newLo, newHi = v(k), v(k)
+			}
 		}
 		if newLo != nil && (!hasLo || *newLo > lo) {
 			lo, hasLo = *newLo, true
@@ -688,4 +698,84 @@ func unspill(b *ssa.BasicBlock, ret *ssa.Return) []ssa.Value {
 		}
 	}
 	return out
+}
+
+// ---- path enumeration for loop-free functions ----
+
+type pathStep struct {
+	Block *ssa.BasicBlock
+	// outcome of the block's terminating If on this path (true edge taken), valid when the block ends in If
+	Taken bool
+}
+
+// enumPaths enumerates every acyclic path from the entry to a Return (panicking exits are skipped).
+// It gives up (returns false) beyond maxPaths or when a cycle is met.
+func enumPaths(fn *ssa.Function, maxPaths int, visit func(path []pathStep, ret *ssa.Return)) bool {
+	n := 0
+	ok := true
+	var dfs func(b *ssa.BasicBlock, path []pathStep, on map[*ssa.BasicBlock]bool)
+	dfs = func(b *ssa.BasicBlock, path []pathStep, on map[*ssa.BasicBlock]bool) {
+		if !ok {
+			return
+		}
+		if on[b] {
+			ok = false // loop
+			return
+		}
+		on[b] = true
+		defer delete(on, b)
+		last := b.Instrs[len(b.Instrs)-1]
+		switch t := last.(type) {
+		case *ssa.Return:
+			n++
+			if n > maxPaths {
+				ok = false
+				return
+			}
+			visit(append(path, pathStep{Block: b}), t)
+		case *ssa.If:
+			dfs(b.Succs[0], append(path, pathStep{b, true}), on)
+			dfs(b.Succs[1], append(append([]pathStep(nil), path...), pathStep{b, false}), on)
+		case *ssa.Jump:
+			dfs(b.Succs[0], append(path, pathStep{Block: b}), on)
+		}
+	}
+	if len(fn.Blocks) > 0 {
+		dfs(fn.Blocks[0], nil, map[*ssa.BasicBlock]bool{})
+	}
+	return ok
+}
+
+// pathFacts lists the condition outcomes along a path.
+func pathFacts(path []pathStep) []Fact {
+	var out []Fact
+	for _, s := range path {
+		if ifi, ok := s.Block.Instrs[len(s.Block.Instrs)-1].(*ssa.If); ok {
+			atom, pol := condAtom(ifi.Cond)
+			out = append(out, Fact{ifi, atom, pol == s.Taken})
+		}
+	}
+	return out
+}
+
+func pathHas(facts []Fact, g Guard) bool {
+	for _, f := range facts {
+		if matchGuard(f, g) {
+			return true
+		}
+	}
+	return false
+}
+
+// countOnPath counts instructions satisfying p in the blocks of the path.
+func countOnPath(path []pathStep, p func(ssa.Instruction) bool) int {
+	n := 0
+	for _, s := range path {
+		for _, in := range s.Block.Instrs {
+			if p(in) {
+				n++
+			}
+		}
+	}
+	return n
 }
